@@ -89,7 +89,10 @@ class If(Expr):
 
         if self.elseBranch is None:
             # if there is only a thenBranch, it must evaluate to TealType.none
+            # (and then so does this expression: typing thenBranch a second time
+            # made nested one-armed Ifs take exponential time)
             require_type(self.thenBranch, TealType.none)
+            return TealType.none
 
         return self.thenBranch.type_of()
 
